@@ -17,6 +17,7 @@ Inductive case :=
          (called : bool)                              (* the upstream received a request *)
          (obs : hdr str)                              (* response header map as the client sees it (without Set-Cookie) *)
          (obs_cookies : list hval)                    (* Set-Cookie values in order: tuples for the proxy's cookie names, raw text otherwise *)
+         (obs_trailer : hdr str)                      (* the chunked trailer section as the client sees it (resp.Trailer) — NOT header fields *)
 | CAuth (endpoint : N) (status : N) (obs : hdr str).
 
 (* ---- equality on observables ---- *)
@@ -108,7 +109,11 @@ Definition host_names (host d : str) : bool :=
           [[]; [46]; [91]; [91; 46]].
 Definition domain_ok (cfg : config) (host : str) (d : option str) : bool :=
   match c_cookie_domain cfg with
-  | [] => match d with None => true (* host-only cookie *) | Some d => host_names host d end
+  | [] => match d with
+          | None => (* never absent, unless Go's Cookie.String had to drop an invalid domain (IPv6 literal, underscore, ...) *)
+                    negb (valid_cookie_domain (match split_host_port host with Some h => h | None => host end))
+          | Some d => host_names host d
+          end
   | cd => match d with None => negb (valid_cookie_domain cd) | Some d => str_eqb d (strip_dot cd) end
   end.
 Definition cookie_ok (cfg : config) (host : str) (c : cookie) : bool :=
@@ -136,8 +141,12 @@ Definition status_comparable (cfg : config) (q : request) (o : outcome) : bool :
   | OForward _ _ u => match u_n1xx u with O => true | S _ => false end
   end.
 
+Definition protected_keys : list str := [k_xcto; k_xfo; k_xxp; hsts_key].
+Definition model_trailers (cfg : config) (q : request) (o : outcome) (k : str) : list hval :=
+  proxy_trailers proxy_security_headers proxy_hsts modify_response_deleted modify_response_trailer_deleted cfg q o k.
+
 Definition mismatch_proxy (cfg : config) (q : request) (o : outcome) (responded : bool) (status : N)
-    (called : bool) (obs : hdr str) (cookies : list hval) : bool :=
+    (called : bool) (obs : hdr str) (cookies : list hval) (obs_trailer : hdr str) : bool :=
   match model cfg q o with
   | NoResponse => responded
   | Resp s h =>
@@ -145,6 +154,8 @@ Definition mismatch_proxy (cfg : config) (q : request) (o : outcome) (responded 
       (c_secure cfg && needs_redirect q && called) ||     (* the redirect is produced before the router runs *)
       negb (forallb (fun k => list_eqb hval_eqb (hget k h) (map VStr (hget k obs))) watched) ||
       negb (list_eqb hval_eqb (hget k_set_cookie h) cookies) ||
+      (* trailer fields named like protected headers: the model says exactly which reach the client *)
+      negb (forallb (fun k => list_eqb hval_eqb (model_trailers cfg q o k) (map VStr (hget k obs_trailer))) protected_keys) ||
       (status_comparable cfg q o && negb (N.eqb s status))
   end.
 
@@ -180,8 +191,10 @@ Definition mismatch_auth (obs : hdr str) : bool :=
 
 Definition judge (c : case) : N :=
   match c with
-  | CProxy cfg q o responded status called obs cookies =>
-      code (mismatch_proxy cfg q o responded status called obs cookies)
+  | CProxy cfg q o responded status called obs cookies obs_trailer =>
+      (* the property is judged on response HEADER fields; trailer fields are compared with the
+         model (mismatch) but are not header fields and are not judged *)
+      code (mismatch_proxy cfg q o responded status called obs cookies obs_trailer)
            (holds_proxy cfg q responded status called obs cookies)
            (known_proxy cfg q o status obs)
   | CAuth _ _ obs => code (mismatch_auth obs) (holds_auth obs) 0
@@ -198,14 +211,16 @@ Definition lclass_num (c : lclass) : N :=
 
 Definition classify (c : case) : N :=
   match c with
-  | CProxy cfg q o _ _ _ _ _ =>
+  | CProxy cfg q o _ _ _ _ _ obs_trailer =>
       (if is_nil (c_overrides cfg) then 0 else 100) +
-      (if c_secure cfg && needs_redirect q then 50 + (if is_nil (q_rawquery q) then 0 else 1)
+      (if c_secure cfg && needs_redirect q then 90 + (if is_nil (q_rawquery q) then 0 else 1)
        else match o with
             | OLocal c _ _ _ => lclass_num c
             | OForward _ _ u =>
                 20 + (if c_replace cfg then 1 else 0) + (match u_n1xx u with O => 0 | S _ => 2 end) +
-                (if is_nil (u_trailers u) then 0 else 4) + (if line_hits hsts_key (u_lines u) then 8 else 0)
+                (if is_nil (u_trailers u) then 0 else 4) + (if line_hits hsts_key (u_lines u) then 8 else 0) +
+                (* a trailer named like a protected header reached the client (as a trailer) *)
+                (if existsb (fun k => negb (is_nil (hget k obs_trailer))) protected_keys then 16 else 0)
             end)
   | CAuth ep _ _ => 200 + ep
   end.
